@@ -4,8 +4,17 @@ import operator
 OPS = dict(lt=operator.lt, le=operator.le, gt=operator.gt, ge=operator.ge, eq=operator.eq, ne=operator.ne)
 
 
+import sys
+
+_n = [0]
+
+
 def dec(s):
-    return "" if s == "-" else "".join(chr(int(t)) for t in s.split(","))
+    """decoded strings are fresh, non-interned objects; every other one is interned (two equal names may then be one
+    interned and one not, or both the same object)"""
+    r = "" if s == "-" else "".join(chr(int(t)) for t in s.split(","))
+    _n[0] += 1
+    return sys.intern(r) if _n[0] % 3 == 0 else r
 
 
 def run(lines, out, args):
